@@ -20,6 +20,8 @@ class TimedByteStream(httpx.AsyncByteStream):
         self.closed = False
         self.log = log if log is not None else []
         self.delivered = 0
+        self.read_timeout: Optional[float] = None   # emulation of the network layer's per-read timeout (None = wait for ever)
+        self.read_timeouts_fired = 0
 
     def feed(self, data: bytes, t: Optional[float] = None):
         self._chunks.append((t, data))
@@ -32,14 +34,26 @@ class TimedByteStream(httpx.AsyncByteStream):
         if ev is not None:
             ev.set()
 
+    async def _wait(self, coro_fn):
+        if self.read_timeout is None:
+            await coro_fn()
+            return
+        try:
+            await asyncio.wait_for(coro_fn(), self.read_timeout)
+        except asyncio.TimeoutError:
+            self.read_timeouts_fired += 1
+            self.log.append(("stream.read_timeout", asyncio.get_running_loop().time()))
+            raise httpx.ReadTimeout("no data within the read timeout")
+
     async def __aiter__(self):
         while True:
             while self._chunks:
-                t, data = self._chunks.pop(0)
+                t, data = self._chunks[0]
                 if t is not None:
                     now = asyncio.get_running_loop().time()
                     if t > now:
-                        await asyncio.sleep(t - now)
+                        await self._wait(lambda: asyncio.sleep(t - now))
+                self._chunks.pop(0)
                 self.delivered += 1
                 await asyncio.sleep(0)
                 if isinstance(data, Exception):
@@ -47,7 +61,7 @@ class TimedByteStream(httpx.AsyncByteStream):
                 yield data
             if self._event is None:
                 return
-            await self._event.wait()
+            await self._wait(self._event.wait)
             if self._event is not None:
                 self._event.clear()
 
